@@ -380,6 +380,32 @@ func shJudge(c *mon.Ctx, in *shCase, legacy bool) {
 			good = false
 		}
 	}
+	// asking again gives the same answer - also after the caller has overwritten
+	// an answer it was given earlier (which it owns)
+	if good && !one {
+		var pre2, sh2, pre3, sh3 []byte
+		var e1, e2, e3, e4 error
+		if c.Try(preName, func() {
+			pre2, e1 = preCall(tx, in.Idx, flag)
+			sh2, e2 = tx.CalcInputSignatureHash(in.Idx, flag)
+		}) && e1 == nil && e2 == nil {
+			if len(pre2) <= 4096 {
+				mon.Scribble(pre2)
+			}
+			mon.Scribble(sh2)
+			if c.Try(preName, func() {
+				pre3, e3 = preCall(tx, in.Idx, flag)
+				sh3, e4 = tx.CalcInputSignatureHash(in.Idx, flag)
+			}) {
+				if e3 != nil || e4 != nil || !bytes.Equal(pre3, want) || !bytes.Equal(sh3, wantHash[:]) {
+					good = false
+					c.Violationf(P+":asked-again-differs:"+cls, "the preimage / signature hash computed again on the same transaction, after the caller overwrote the results of an earlier call, differs from the reference (errors %v, %v); %s", e3, e4, shDescribe(in))
+				} else {
+					c.Count("asked-again:equal")
+				}
+			}
+		}
+	}
 	if good {
 		var ib [5]byte
 		binary.LittleEndian.PutUint32(ib[:], in.Idx)
